@@ -318,6 +318,25 @@ def gen_removal_case(rng):
     return {'kind': 'apply', 'mol': mol, 'links': links}
 
 
+def gen_rename_case(rng):
+    """A link that renames the residues it fits on (replace), followed by a link that asks for the NEW residue name: the later
+    link has to see the molecule as the earlier one left it."""
+    n = rng.randint(2, 5)
+    old, new_ = rng.sample([1, 2, 3], 2)
+    nodes = [{'key': k, 'resid': 1 + k, 'attrs': {1: 1, 2: old if rng.random() < 0.8 else rng.choice([1, 2, 3])},
+              'pos': [round(rng.uniform(-1, 1), 3) for _ in range(3)]} for k in range(n)]
+    edges = [[k - 1, k] for k in range(1, n)]
+    mol = {'nodes': nodes, 'edges': edges, 'meta': {}, 'inters': {}}
+    renamer = {'nodes': [{'key': 100, 'order': ['n', 0], 'tmpl': {2: ['eq', old]}, 'replace': [{2: new_}, False]}],
+               'edges': [], 'non_edges': [], 'patterns': [], 'molmeta': {}, 'inters': [], 'removed': []}
+    user = {'nodes': [{'key': 100, 'order': ['n', 0], 'tmpl': {2: ['eq', new_]}, 'replace': None},
+                      {'key': 101, 'order': ['n', 1], 'tmpl': {2: ['eq', rng.choice([new_, new_, old])]}, 'replace': None}],
+            'edges': [[100, 101]], 'non_edges': [], 'patterns': [], 'molmeta': {},
+            'inters': [[1, {'atoms': [100, 101], 'params': [rng.randint(1, 99)], 'meta': {}}]], 'removed': []}
+    links = [renamer, user] if rng.random() < 0.8 else [user, renamer]
+    return {'kind': 'apply', 'mol': mol, 'links': links}
+
+
 # ---------------------------------------------------------------- shipped data
 def gen_real_case(rng):
     from . import c01
@@ -494,6 +513,8 @@ def generate(rng, tier):
         cases.append(gen_apply(rng))
     for _ in range(120 if tier == 'quick' else 2000):
         cases.append(gen_removal_case(rng))
+    for _ in range(40 if tier == 'quick' else 600):
+        cases.append(gen_rename_case(rng))
     for _ in range(30 if tier == 'quick' else 500):
         cases.append(gen_real_case(rng))
     return cases
